@@ -1,13 +1,93 @@
 //! C17 parts for the hook-less families.
-use crate::common::Ctx;
+use crate::common::{Ctx, catch};
 use rayon::prelude::*;
+use serde_json::json;
 
 pub fn explorers(ctx: &Ctx) {
     let jobs: Vec<Box<dyn Fn() + Sync + Send>> = vec![
+        Box::new(|| crate::c07::explore(ctx, &crate::c07::no_observer)),
         Box::new(|| crate::c08::explore(ctx, &crate::c08::no_observer)),
         Box::new(|| crate::c09::explore(ctx, &crate::c09::no_observer)),
+        Box::new(|| crate::c10::explore(ctx, &crate::c10::no_observer)),
     ];
     jobs.par_iter().for_each(|j| j());
 }
 
-pub fn extremes(_ctx: &Ctx) {}
+/// Minimum configurations: t-digest k=10 (cdf/pmf with [], one and many split points;
+/// rank/quantile at 0, 1, min, max), Bloom 1 bit x 1 and 32767 hashes, FI map size 8
+/// (purge to empty, merge of empties), Count-Min 1x3.
+pub fn extremes(ctx: &Ctx) {
+    let run = |what: &str, f: &mut dyn FnMut()| {
+        if let Err(p) = catch(|| f()) {
+            ctx.violation(&format!("panic|{}", p.site_key()), &format!("{what}: {} at {}:{}", p.message, p.file, p.line), json!({"kind":"extreme","what":what}));
+        }
+        ctx.add_states(1);
+        ctx.add_transitions(1);
+    };
+    run("t-digest k=10: cdf/pmf with empty, single and many split points; rank/quantile at the ends", &mut || {
+        use datasketches::tdigest::TDigestMut;
+        for n in [1usize, 2, 3, 39, 40, 41, 500] {
+            let mut t = TDigestMut::new(10);
+            for i in 0..n {
+                t.update(i as f64);
+            }
+            let (lo, hi) = (t.min_value().unwrap(), t.max_value().unwrap());
+            let _ = (t.cdf(&[]), t.pmf(&[]), t.cdf(&[lo]), t.pmf(&[hi]), t.cdf(&[lo, (lo + hi) / 2.0 + 0.25, hi + 1.0]));
+            let _ = (t.rank(lo), t.rank(hi), t.rank(lo - 1.0), t.rank(hi + 1.0), t.quantile(0.0), t.quantile(1.0), t.quantile(0.5));
+            let f = t.freeze();
+            let _ = (f.cdf(&[]), f.pmf(&[]), f.rank(lo), f.quantile(1.0));
+        }
+    });
+    run("Bloom filter with 1 bit and 1 / 32767 hashes", &mut || {
+        use datasketches::bloom::BloomFilterBuilder;
+        for h in [1u16, 32767] {
+            let mut f = BloomFilterBuilder::with_size(1, h).build();
+            let _ = f.contains(&1u64);
+            f.insert(1u64);
+            let _ = (f.contains_and_insert(&2u64), f.bits_used(), f.estimated_fpp());
+            let g = f.clone();
+            f.union(&g);
+            f.intersect(&g);
+            f.invert();
+            f.reset();
+            let _ = datasketches::bloom::BloomFilter::deserialize(&g.serialize()).unwrap();
+        }
+    });
+    run("Frequent Items map size 8: purge to empty, merge of empties", &mut || {
+        use datasketches::frequencies::{ErrorType, FrequentItemsSketch};
+        let mut s = FrequentItemsSketch::<i64>::new(8);
+        for i in 0..7 {
+            s.update(i);
+        }
+        let e = FrequentItemsSketch::<i64>::new(8);
+        let mut m = FrequentItemsSketch::<i64>::new(8);
+        m.merge(&e);
+        m.merge(&s);
+        m.merge(&e);
+        let _ = (m.frequent_items(ErrorType::NoFalsePositives), m.frequent_items(ErrorType::NoFalseNegatives), m.estimate(&3));
+        let _ = FrequentItemsSketch::<i64>::deserialize(&m.serialize()).unwrap();
+        let _ = FrequentItemsSketch::<i64>::deserialize(&e.serialize()).unwrap();
+    });
+    run("Count-Min 1x3 for every counter type", &mut || {
+        use datasketches::countmin::CountMinSketch;
+        macro_rules! one {
+            ($t:ty) => {{
+                let mut s: CountMinSketch<$t> = CountMinSketch::new(1, 3);
+                s.update(1u64);
+                s.update_with_weight("x", 2 as $t);
+                let o = s.clone();
+                s.merge(&o);
+                let _ = (s.estimate(1u64), s.upper_bound(1u64), s.lower_bound(7u64));
+                let _ = CountMinSketch::<$t>::deserialize(&s.serialize()).unwrap();
+            }};
+        }
+        one!(u8);
+        one!(u16);
+        one!(u32);
+        one!(u64);
+        one!(i8);
+        one!(i16);
+        one!(i32);
+        one!(i64);
+    });
+}
